@@ -41,7 +41,7 @@ PROBES = ['zero-size-array-element', 'deep-nesting', 'unterminated-container', '
           'lying-body-length', 'truncated-then-closed', 'bitflip-survived-as-message',
           'exception-closed-only-that-connection', 'other-peer-call-completed-after-fault',
           'client-pending-calls-failed-on-drop', 'hostile-variant-signature', 'unknown-message-type',
-          'wrong-header-field-type', 'budget-margin-over-10x', 'lying-string-length']
+          'wrong-header-field-type', 'budget-margin-over-10x', 'lying-string-length', 'lying-unix-fds-count']
 COMPONENTS = {
     'real': ['txdbus.message.parseMessage (counting pass-through wrapper)', 'txdbus.marshal.unmarshal*',
              'txdbus.protocol framing', 'txdbus.bus.Bus / BusProtocol', 'txdbus.client.DBusClientConnection'],
@@ -137,7 +137,7 @@ def raw_message(mtype, serial, fields, sig, body_bytes, little=True, flags=0, bo
 def mutate(ds, sim, little_serial):
     """-> (kind, bytes to write, close_after)"""
     serial = little_serial
-    kind = ds.weighted([3, 2, 2, 2, 1.5, 5, 1.5, 1, 3])
+    kind = ds.weighted([3, 2, 2, 2, 1.5, 5, 1.5, 1, 3, 1.5])
     base = gen.random_message(ds, serial, mtypes=(1, 4, 2, 3), maxsig=3)
     if rc.F_DESTINATION in base.fields:
         base.fields[rc.F_DESTINATION] = 'org.freedesktop.DBus'
@@ -227,6 +227,14 @@ def mutate(ds, sim, little_serial):
         f = {rc.F_PATH: '/h', rc.F_MEMBER: 'M', rc.F_INTERFACE: 'org.sim.H',
              rc.F_DESTINATION: 'org.freedesktop.DBus'}
         return 'string-length', raw_message(ds.pick([4, 1]), serial, f, sig, body, little), False
+    if kind == 9:
+        # a unix_fds header that declares descriptors which were never sent
+        sim.probe('lying-unix-fds-count')
+        f = {rc.F_PATH: '/h', rc.F_MEMBER: 'M', rc.F_INTERFACE: 'org.sim.H',
+             rc.F_UNIX_FDS: ds.pick([1, 3, 1000, 2**31, 2**32 - 1])}
+        sig, body = ds.pick([('', []), ('h', [0]), ('ah', [[0, 1, 7]]), ('s', ['x'])])
+        m = rc.Msg(ds.pick([1, 4, 2 if False else 4]), serial, f, sig, body, little=not ds.flag(0.3))
+        return 'unix-fds-count', m.encode(), False
     mt = ds.pick([0, 5, 6, 255])
     base2 = bytearray(rc.Msg(4, serial, {rc.F_PATH: '/h', rc.F_MEMBER: 'M',
                                          rc.F_INTERFACE: 'org.sim.H'}).encode())
